@@ -12,7 +12,14 @@ timeout 600 /venv/bin/python $O/demo.py > $O/confirm_demo_with.log 2>&1; A=$?
 /venv/bin/python -m pytest -q -p no:cacheprovider --timeout=900 -n 6 > $O/confirm_suite.log 2>&1
 S=$(tail -1 $O/confirm_suite.log)
 F=$(grep -c "^FAILED" $O/confirm_suite.log); FB=$(grep "^FAILED" $O/confirm_suite.log | grep -c -E "test_help_text\[(assemble|call|call-exact)\]|test_comb\[0-0\]")
+RF=0
+if [ "$F" != "$FB" ]; then
+  # failures beyond the baseline: run exactly those tests again, serially and with warm caches (cold numba caches race under xdist)
+  grep "^FAILED" $O/confirm_suite.log | grep -v -E "test_help_text\[(assemble|call|call-exact)\]|test_comb\[0-0\]" | sed 's/^FAILED //;s/ - .*//' > $O/confirm_refail.txt
+  /venv/bin/python -m pytest -q -p no:cacheprovider --timeout=900 $(cat $O/confirm_refail.txt) > $O/confirm_resuite.log 2>&1
+  RF=$(grep -c "^FAILED" $O/confirm_resuite.log)
+fi
 git checkout -q -- .
 purge
 timeout 600 /venv/bin/python $O/demo.py > $O/confirm_demo_without.log 2>&1; B=$?
-echo "$D/$K demo_with=$A demo_without=$B failed=$F baseline_failed=$FB suite: $S"
+echo "$D/$K demo_with=$A demo_without=$B failed=$F baseline_failed=$FB refailed=$RF suite: $S"
